@@ -71,6 +71,11 @@ func applyRaw(m *message.Message, op byte) (res byte) {
 		}
 	}()
 	switch op {
+	case 'c':
+		// not one of the four calls the property is about: a caller passes a nil context (and survives whatever that does);
+		// the settlement calls around it must behave as if it had not happened
+		m.SetContext(nil) //nolint
+		return 'x'
 	case 'a':
 		if m.Ack() {
 			return 't'
@@ -94,6 +99,9 @@ func runSeq(kind, ops string) string {
 	var sb strings.Builder
 	for i := 0; i < len(ops); i++ {
 		r := apply(m, ops[i])
+		if ops[i] == 'c' && r != 'B' {
+			continue // no result of its own
+		}
 		sb.WriteByte(r)
 		if r == 'B' {
 			blockedSeen++
@@ -393,6 +401,37 @@ func main() {
 		nHist = 6000
 	}
 	enumSeq(out, maxLen)
+	// the four calls with a SetContext(nil) somewhere in between (the caller recovers if that panics)
+	for _, k := range kinds {
+		var rec func(prefix string)
+		rec = func(prefix string) {
+			if len(prefix) > 0 {
+				for pos := 0; pos <= len(prefix); pos++ {
+					ops := prefix[:pos] + "c" + prefix[pos:]
+					out.Case("seq "+k+" "+ops, dash(runSeq(k, ops)))
+					out.Count("seq.with_setcontext_nil")
+				}
+			}
+			if len(prefix) == 3 || blockedSeen >= 3 {
+				return
+			}
+			for i := 0; i < len(alphabet); i++ {
+				rec(prefix + string(alphabet[i]))
+			}
+		}
+		rec("")
+	}
+	// long histories: hundreds of calls on one message (counters in the implementation must not wrap around)
+	for _, k := range kinds {
+		for _, ops := range []string{
+			strings.Repeat("a", 255) + "nAN", strings.Repeat("a", 256) + "AN", strings.Repeat("a", 257) + "nAN",
+			strings.Repeat("n", 255) + "aAN", strings.Repeat("n", 256) + "AN", strings.Repeat("an", 130) + "AN",
+			"n" + strings.Repeat("a", 255) + "AN", strings.Repeat("aA", 300) + "nN", strings.Repeat("a", 65536) + "nAN",
+		} {
+			out.Case("seq "+k+" "+ops, dash(runSeq(k, ops)))
+			out.Count("seq.long")
+		}
+	}
 	nChild := 40
 	if a.Thorough() {
 		nChild = 400
